@@ -24,8 +24,12 @@ import lib
 
 PROP = 'C14'
 THEOREMS = [
-    'C14_codec_roundtrip', 'C14_stream_parses',
+    'C14_codec_roundtrip', 'C14_stream_parses', 'C14_uuid5_wf', 'C14_root_id', 'C14_roundtrip',
+    'C14_emitted_once', 'C14_v2_lengths', 'C14_idstr_collection', 'C14_idstr_shape',
+    'C14_id_injective', 'C14_id_functional',
 ]
+REFUTED = ['C14_colon_join_refuted', 'C14_shape_source_refuted', 'C14_collection_name_refuted',
+           'C14_named_empty_tuple_refuted', 'C14_parse_annotations_refuted']
 IMPL = os.path.join(lib.VERIF, 'harness', 'impl', 'c14_impl.py')
 TRANSLATOR = os.path.join(lib.VERIF, 'harness', 'translate', 'c14_tags.py')
 GEN_V = os.path.join(lib.COQ, 'theories', 'C14', 'Gen_Tags.v')
@@ -531,10 +535,10 @@ def freeze(x):
     return x
 
 
-CLASSES = [
-    ('C14-colon-join', 'colon'),
+CLASSES = [      # tried in this order: 'colon' also blanks collection names, so it comes last
     ('C14-shape-source', 'src'),
     ('C14-collection-name', 'cname'),
+    ('C14-colon-join', 'colon'),
 ]
 
 
@@ -591,7 +595,8 @@ def mutate(g, t):
     kinds starting with 'weak:' are built to keep the content-derived id unchanged."""
     r = g.r
     paths = list(subterm_paths(t))
-    path, sub = r.choice(paths)
+    inner = [ps for ps in paths if ps[1][0] != 's']
+    path, sub = r.choice(inner) if (inner and r.random() < 0.75) else r.choice(paths)
     tag = sub[0]
     x = r.random()
     if tag == 's':
@@ -1007,8 +1012,16 @@ def run(tier):
     rep = lib.Report(PROP, tier, 'proof')
     thorough = tier == 'thorough'
     tr_ok, tr_out = translate()
-    pf = lib.proof_stage(rep, 'C14', THEOREMS, thorough=thorough)
+    pf = lib.proof_stage(rep, 'C14', THEOREMS, extra_targets=['theories/C14/Refuted.vo', 'theories/C14/PropsExamples.vo'], thorough=thorough)
     exe, blog = lib.build_model('c14', 'ExtractC14.v', 'c14_main.ml', 'C14_ext')
+    refuted_audit = None
+    if thorough and pf['ok']:
+        rok, rproved, _ = lib.coq_props('C14', props_file='Refuted.v')
+        refuted_audit = {t: ('closed under the global context' if rproved.get(t) == [] else rproved.get(t, 'NOT CHECKED'))
+                         for t in REFUTED}
+        if not rok or any(rproved.get(t) != [] for t in REFUTED):
+            pf['ok'] = False
+            pf['broken'].append('Refuted.v: a refutation witness no longer checks')
 
     rnd = lib.rng('C14')
     n_fam, n_single, n_par, n_inp, n_x = (900, 1400, 700, 250, 3) if not thorough else (9000, 14000, 6000, 2500, 4)
@@ -1284,6 +1297,23 @@ def run(tier):
         'descriptor_tags_seen_v2': {str(k): v for k, v in sorted(tagh.items())},
         'case_kinds': mk,
         'translator': {'ok': tr_ok, 'manifest': man},
+        'refuted_theorems': {
+            'built': 'theories/C14/Refuted.vo is a make target of every run (vm_compute witnesses with the real SHA-1)',
+            'names': REFUTED, 'assumptions_audit_thorough': refuted_audit,
+            'replayed_on_real_code': 'corpus/C14/01..07 (always run first); the three in-domain ones are '
+                                     'known findings C14-colon-join, C14-shape-source, C14-collection-name'},
+        'nonvacuity_examples': 'theories/C14/PropsExamples.vo (make target): hypotheses of C14_roundtrip and '
+                               'C14_id_injective/functional instantiated with the real hash on nested types',
+        'theorem_scope': {
+            'C14_roundtrip': 'all type terms, both protocol generations, all options except v1+inline annotations; '
+                             'hypotheses: ids determine descriptions and are acyclic among reachable entities, '
+                             '16-byte ids, UTF-8 names',
+            'C14_id_injective': 'all pairs of type terms (default options); hypotheses: no SHA-1 collision on the '
+                                'strings hashed for them, hashed ids differ from schema ids, names without NUL and colon',
+            'C14_id_functional': 'as C14_id_injective plus [conf]: schema-determined attributes are functions of '
+                                 'ids/names (refuted for sertypes alone: Refuted.v)',
+            'not_covered_by_theorems': 'describe_params and describe_input_shape (model + correspondence + monitors '
+                                       'only); the EdgeQL compiler producing the inputs'},
         'tier_note': 'sertypes tier: the EdgeQL compiler is not executed (std schema not available); '
                      'schema objects are created directly with Object.create_in_schema',
         'trusted_base': [
